@@ -5,6 +5,7 @@
    reachable by any interleaving of enabled steps.  Statements closed by `exact lemma`. *)
 From Coq Require Import List Bool Arith.
 From OG Require Import C04.Model C04.Proofs C04.Steps C04.Inv C04.Views C04.Safety C04.Progress C04.NotBoth.
+From OG Require Import C04.Eng C04.EngInv C04.EngProgress C04.EngSafe C04.EngRefuted.
 Import ListNotations.
 
 (* every executable schedule is a reachability witness (used by Mutants.v / Refuted.v and by the correspondence) *)
@@ -98,4 +99,57 @@ Example C04_example :
                /\ forallb done (actors st) = true
   | None => False
   end.
+Proof. vm_compute. repeat split. Qed.
+
+(* ================================================================================================================
+   ENGINE / PARTITION LEVEL (C04/Eng.v): operations are programs over the droppingDB token, EngineImpl.mu, DBPTInfo.mu,
+   shard.mu (Go RWMutex semantics WITH writer preference: an announced writer blocks every new reader) and the
+   partition's reference counter.  The theorems hold for ANY number of concurrent operations whose programs pass the
+   static discipline `chk` (locks taken in increasing rank - hence never re-entered -, Lock = announce;acquire,
+   reference before use, drained + closed before the directories go) and EVERY interleaving.  The programs of the code
+   (query, write, WriteToRaft's partition lookup [repaired], DropMeasurement, DeleteMstInShard, ForceFlush,
+   DeleteDatabase, Engine.Close, DeleteShard) pass it: C04_engine_code_programs_ordered. *)
+
+(* closing or dropping while operations are in flight does not deadlock: while some operation has not finished, some
+   step is enabled (DeleteDatabase's wait for the references has its time-out, as in the code) *)
+Theorem C04_engine_no_deadlock : forall ps st, forallb (chk ts0) ps = true -> ereach ecode (einit ps) st ->
+  (exists i a, nth_error (eacts st) i = Some a /\ edone a = false) ->
+  exists i c st', eexec ecode st i c = Some st'.
+Proof. exact eng_no_deadlock_all. Qed.
+Print Assumptions C04_engine_no_deadlock.
+
+(* ... nor crashes / uses freed state: the violation log stays empty (no counter underflow, no work on deleted data
+   under a reference, no admitted shard operation on deleted files, no directory deletion under references); the
+   counter equals the number of reference holders; directories go only after the shard was closed and the references
+   drained; an operation that holds a reference never sees the directories gone *)
+Theorem C04_engine_ref_safety : forall ps st, forallb (chk ts0) ps = true -> ereach ecode (einit ps) st ->
+  bad (esh st) = [] /\
+  refs (esh st) = nref (eacts st) /\
+  (gone (esh st) = true -> closed (esh st) = true /\ refs (esh st) = 0) /\
+  (forall j a, nth_error (eacts st) j = Some a -> hasref (ts a) = true -> gone (esh st) = false).
+Proof. exact eng_safe_all. Qed.
+Print Assumptions C04_engine_ref_safety.
+
+(* the read/write locks exclude: whoever holds a lock exclusively is its only holder *)
+Theorem C04_engine_rw_exclusion : forall V ps st k, forallb (chk ts0) ps = true -> ereach V (einit ps) st ->
+  forall j1 j2 a1 a2 m, nth_error (eacts st) j1 = Some a1 -> nth_error (eacts st) j2 = Some a2 ->
+    In (k, MW) (held (ts a1)) -> In (k, m) (held (ts a2)) -> j1 = j2.
+Proof. exact rw_exclusion. Qed.
+Print Assumptions C04_engine_rw_exclusion.
+
+(* the hypotheses are satisfiable by the code's programs, in any multiplicity *)
+Theorem C04_engine_code_programs_ordered : forall ps, (forall p, In p ps -> In p code_progs) -> forallb (chk ts0) ps = true.
+Proof. exact instances_ordered. Qed.
+Print Assumptions C04_engine_code_programs_ordered.
+
+(* non-vacuity: two queries, a write, a DropMeasurement, a ForceFlush, a DeleteDatabase and an Engine.Close, run
+   round-robin from a state where the first query already holds its reference and DeleteDatabase already waits for it:
+   everybody finishes, nothing bad is logged, the partition is gone and the counter is back at 0 *)
+Example C04_engine_example :
+  let sys := [P_query; P_dropdb; P_write; P_dropmst; P_flush; P_close; P_query] in
+  forallb (chk ts0) sys = true /\
+  let st1 := run_until_blocked ecode 200 (run_until_blocked ecode 5 (einit sys) 0) 1 in
+  (match nth_error (eacts st1) 1 with Some a => match pr a with Br Wait _ _ => true | _ => false end | None => false end) = true /\
+  let st := run_rounds ecode 12 st1 [0; 1; 2; 3; 4; 5; 6] in
+  forallb edone (eacts st) = true /\ bad (esh st) = [] /\ refs (esh st) = 0 /\ present (esh st) = false.
 Proof. vm_compute. repeat split. Qed.
